@@ -51,6 +51,17 @@ def groups(n, seed):
             for rn, j in zip(("B", "C", "D"), (j0, j0 + 1, j0 + 2)):
                 runs.append({"prob": ps, "params": dict(pk, time_limit=float(j)), "run": rn, "twin": "C08"})
             gs.append({"tag": "C08.lambmax", "runs": runs})
+    # objective undefined outside a domain (its derivative formulas stay finite): accepted points that cannot be evaluated are
+    # turned into rejections by the post-step validation -- also when the deadline passes during that very step
+    for i in range(10 if n > 100 else 4):
+        ps = ("logdomain", int(rng.integers(0, 2 ** 31)), int(rng.integers(1, 4)), bool(i % 2))
+        ctl = [StepControlType.Fixed, StepControlType.DistanceRatio, StepControlType.Exact, StepControlType.ResiduumRatio][i % 4]
+        pk = dict(step_control_type=ctl, lamb_init=float(10.0 ** rng.uniform(-3, -1)), iteration_limit=14, display_interval=1e9)
+        for j0 in ((1, 4, 7, 10, 13) if n > 100 else (1, 4, 7)):
+            runs = [{"prob": ps, "params": dict(pk), "run": "A", "twin": "C08"}]
+            for rn, j in zip(("B", "C", "D"), (j0, j0 + 1, j0 + 2)):
+                runs.append({"prob": ps, "params": dict(pk, time_limit=float(j)), "run": rn, "twin": "C08"})
+            gs.append({"tag": "C08.domain", "runs": runs})
     return gs
 
 
